@@ -150,7 +150,7 @@ export function genRT(rng, d, names) {
   if (rng.chance(1, 12)) r = [A("desc"), rng.pick(["doc", "a */ b", "two\nlines"]), r];
   return r;
 }
-function genEnv(rng) {
+export function genEnv(rng) {
   const n = rng.below(4);
   const names = Array.from({ length: n }, (_, i) => (rng.chance(3, 4) ? "O" : "N") + i);
   const env = names.map((name) => {
@@ -199,7 +199,7 @@ function tplMember(rng, it) {
   return tplMember(rng, rng.pick(it.slice(1)));
 }
 function lookupEnv(env, name) { const e = env.find((p) => p[0] === name); return e ? e[1] : null; }
-function member(rng, rt, env, d) {
+export function member(rng, rt, env, d) {
   if (d < -6) return null;
   if (rt instanceof Atom) {
     switch (rt.s) {
@@ -248,7 +248,7 @@ function member(rng, rt, env, d) {
   }
   return randomValue(rng, 1);
 }
-function mutate(rng, v, d) {
+export function mutate(rng, v, d) {
   if (d <= 0 || rng.chance(1, 3)) return randomValue(rng, 1);
   if (Array.isArray(v)) {
     const c = v.slice();
@@ -279,7 +279,7 @@ export function gen(rng, params, mode) {
 }
 
 // ---------------- runner + oracles ----------------
-function registerFormats(cg) {
+export function registerFormats(cg) {
   for (const sub of ["a", "b", "ab"]) cg.registerStringFormatter("f" + sub, (s) => s.includes(sub));
   for (const k of [2, 3]) cg.registerNumberFormatter("n" + k, (n) => Number.isInteger(n) && Math.abs(n) < 1e15 && n % k === 0);
 }
